@@ -46,11 +46,11 @@ def _catalogue():
 
 
 def _sizes(spec, tier):
-    return spec.sizes if tier == "thorough" else spec.sizes[:1]
+    return spec.sizes if tier == "thorough" else tuple(z for z in spec.sizes if z < 3)
 
 
 def _offsets(tier, seed):
-    return (seed, seed + 5) if tier == "thorough" else (seed,)
+    return (seed, seed + 5, seed + 11) if tier == "thorough" else (seed,)
 
 
 def _kinds_for(spec, off, sz, tier="quick"):
@@ -157,8 +157,8 @@ class C15(Check):
     pid = "C15"
     level = "exploration"
     design_ref = "DESIGN.md §4 C15"
-    rule = ("complete product: catalogue entry point (vmc/ref/c15_catalogue.py) x option set x tensor size (quick: first declared size; "
-            "thorough: every declared size x 2 value-table offsets) x array layout {fresh, transposed view, strided view, read-only one "
+    rule = ("complete product: catalogue entry point (vmc/ref/c15_catalogue.py) x option set x tensor size (quick: declared sizes among (3,4,2), (2,3,2,2), (4,3); "
+            "thorough: additionally (5,4,3), and 3 value-table offsets) x array layout {fresh, transposed view, strided view, read-only one "
             "array-bearing parameter at a time} x container kind {tuple, list, wrapper} of factorised-tensor arguments; a case is "
             "(entry, option set, size, offset, layout, container); it is non-trivial iff the real call was executed (returned or raised "
             "from inside the library, not rejected for its signature) with at least one mutable caller-owned object (array with >= 2 "
